@@ -32,6 +32,7 @@ func c02(c *Ctx) {
 	tallyRule(c, "R7")
 	// the validator set recorded as LastValidators is the one that signed the block: next-set changes never alias it
 	uniformApplicationRule(c, "R8")
+	c02R9(c)
 }
 
 func c15R6rule(c *Ctx, id string) {
